@@ -31,13 +31,13 @@ def v_eq(a, b):
     raise Undecided('equality on ' + k)
 
 
-def call_summary(qname, args):
+def call_summary(qname, args, gargs=()):
     """Semantics of the std functions the built-in checkers use. Returns a value or None (no summary)."""
     q = qname
     a = args
     if q in ('std::result::Result::as_ref', 'std::option::Option::as_ref', 'std::clone::Clone::clone', 'std::option::Option::cloned',
              'std::option::Option::copied', 'std::borrow::ToOwned::to_owned', 'std::result::Result::cloned', 'std::result::Result::as_deref',
-             'std::option::Option::as_deref', 'std::convert::Into::into', 'std::convert::From::from', 'std::borrow::Borrow::borrow', 'std::ops::Deref::deref'):
+             'std::option::Option::as_deref', 'std::convert::AsRef::as_ref', 'std::convert::Into::into', 'std::convert::From::from', 'std::borrow::Borrow::borrow', 'std::ops::Deref::deref'):
         return a[0]
     if q == 'std::result::Result::ok':
         return ('opt', a[0][2] if a[0][1] == 'Ok' else None)
@@ -56,14 +56,41 @@ def call_summary(qname, args):
     if q == 'std::cmp::PartialEq::ne':
         return ('bool', not v_eq(a[0], a[1]))
     if q == 'dyn std::any::Any::downcast_ref' or q == 'dyn std::any::Any::downcast_mut':
-        # ('any', type tag, value): the downcast succeeds iff the tag is the requested type (tag 'Self')
+        # ('any', type tag, value): the downcast succeeds iff the tag is the requested type. Tags are printed types;
+        # the tag 'Self' stands for the type the call names first when no generic argument is known.
         if a[0][0] != 'any':
             raise Undecided('downcast of a non-Any value')
-        return ('opt', a[0][2] if a[0][1] == 'Self' else None)
+        want = gargs[0] if gargs else 'Self'
+        return ('opt', a[0][2] if a[0][1] == want else None)
     if q == 'dyn std::any::Any::is':
         if a[0][0] != 'any':
             raise Undecided('is() on a non-Any value')
-        return ('bool', a[0][1] == 'Self')
+        want = gargs[0] if gargs else 'Self'
+        return ('bool', a[0][1] == want)
+    if q == 'std::option::Option::zip':
+        return ('opt', None if a[0][1] is None or a[1][1] is None else ('tuple', (a[0][1], a[1][1])))
+    if q == 'std::option::Option::and':
+        return ('opt', None) if a[0][1] is None else a[1]
+    if q == 'std::option::Option::or':
+        return a[0] if a[0][1] is not None else a[1]
+    if q == 'std::option::Option::xor':
+        if (a[0][1] is None) == (a[1][1] is None):
+            return ('opt', None)
+        return a[0] if a[0][1] is not None else a[1]
+    if q == 'std::option::Option::flatten':
+        return ('opt', None) if a[0][1] is None else a[0][1]
+    if q == 'std::option::Option::ok_or':
+        return ('res', 'Err', a[1]) if a[0][1] is None else ('res', 'Ok', a[0][1])
+    if q == 'std::option::Option::unzip':
+        return ('tuple', (('opt', None), ('opt', None))) if a[0][1] is None else ('tuple', (('opt', a[0][1][1][0]), ('opt', a[0][1][1][1])))
+    if q == 'std::result::Result::and':
+        return a[0] if a[0][1] == 'Err' else a[1]
+    if q == 'std::result::Result::or':
+        return a[0] if a[0][1] == 'Ok' else a[1]
+    if q == 'std::result::Result::unwrap_or':
+        return a[0][2] if a[0][1] == 'Ok' else a[1]
+    if q == 'std::result::Result::flatten':
+        return a[0] if a[0][1] == 'Err' else a[0][2]
     if q == 'std::mem::discriminant':
         return ('atom', 'discr:' + (a[0][1] if a[0][0] == 'res' else str(a[0][1] is None)))
     return None
@@ -96,6 +123,26 @@ def closure_summary(F, q, a, depth):
         return a[1] if a[0][1] is None else call_closure(F, a[2], [a[0][1]], depth)
     if q == 'std::option::Option::unwrap_or':
         return a[1] if a[0][1] is None else a[0][1]
+    if q == 'std::option::Option::or_else':
+        return a[0] if a[0][1] is not None else call_closure(F, a[1], [], depth)
+    if q == 'std::option::Option::unwrap_or_else':
+        return a[0][1] if a[0][1] is not None else call_closure(F, a[1], [], depth)
+    if q == 'std::option::Option::map_or_else':
+        return call_closure(F, a[1], [], depth) if a[0][1] is None else call_closure(F, a[2], [a[0][1]], depth)
+    if q == 'std::option::Option::ok_or_else':
+        return ('res', 'Err', call_closure(F, a[1], [], depth)) if a[0][1] is None else ('res', 'Ok', a[0][1])
+    if q == 'std::option::Option::zip_with':
+        return ('opt', None if a[0][1] is None or a[1][1] is None else call_closure(F, a[2], [a[0][1], a[1][1]], depth))
+    if q == 'std::result::Result::and_then':
+        return a[0] if a[0][1] == 'Err' else call_closure(F, a[1], [a[0][2]], depth)
+    if q == 'std::result::Result::or_else':
+        return a[0] if a[0][1] == 'Ok' else call_closure(F, a[1], [a[0][2]], depth)
+    if q == 'std::result::Result::unwrap_or_else':
+        return a[0][2] if a[0][1] == 'Ok' else call_closure(F, a[1], [a[0][2]], depth)
+    if q == 'std::result::Result::map_or':
+        return a[1] if a[0][1] == 'Err' else call_closure(F, a[2], [a[0][2]], depth)
+    if q == 'std::result::Result::map_or_else':
+        return call_closure(F, a[1], [a[0][2]], depth) if a[0][1] == 'Err' else call_closure(F, a[2], [a[0][2]], depth)
     if q == 'std::result::Result::is_ok_and':
         return ('bool', a[0][1] == 'Ok' and truth(call_closure(F, a[1], [a[0][2]], depth)))
     if q == 'std::result::Result::is_err_and':
@@ -251,7 +298,7 @@ def evaluate(F, body, args, depth=0, steps=400):
             if call.target is None:
                 raise Undecided('diverging call ' + call.qname)
             argv = [op_val(a) for a in call.args]
-            res = call_summary(call.qname, argv)
+            res = call_summary(call.qname, argv, call.gargs)
             if res is None:
                 res = closure_summary(F, call.qname, argv, depth)
             if res is None:
